@@ -127,7 +127,7 @@ Section Proofs.
   Notation path_event := (path_event brepr re_search re_text c cs it).
   Notation path_test := (path_test brepr re_search re_text c it).
   Notation shortcut := (shortcut c cs it).
-  Notation vis := (vis brepr excl_re c).
+  Notation vis := (vis brepr excl_re c cs it).
   Notation vis_doc := (vis_doc brepr excl_re c).
   Notation leaf_match := (leaf_match brepr re_search c cs it).
   Notation leaf_raises := (leaf_raises c it).
@@ -142,6 +142,10 @@ Section Proofs.
   Notation path_match := (path_match brepr re_search re_text c cs it).
   Notation attrs_of := (attrs_of str_attrs bytes_attrs it).
   Notation attr_text := (attr_text brepr cs).
+  Notation match_at := (match_at brepr re_search c cs it).
+  Notation item_match := (item_match brepr re_search c cs it).
+  Notation atom_item := (atom_item it).
+  Notation obj_searched := (obj_searched it).
   Notation matches_spec := (matches_spec brepr re_search excl_re c cs it).
   Notation matches_spec_doc := (matches_spec_doc brepr re_search excl_re c cs it).
   Notation paths_spec := (paths_spec brepr re_search excl_re re_text c cs it).
@@ -179,7 +183,7 @@ Section Proofs.
     intros txt hit ev. unfold SearchModel.path_test, SearchSpec.text_match, SearchSpec.text_raises.
     destruct (match_string c && pystr_eqb _ txt || negb (match_string c) && contains_sub _ txt) eqn:E;
       cbn [negb orb andb]; [crush|].
-    destruct it as [a|[|]]; try destruct (re_search txt); crush.
+    destruct it as [a|[|]|w]; try destruct (re_search txt); crush.
   Qed.
 
   Lemma search_str_iff : forall isb s p ev,
@@ -188,7 +192,7 @@ Section Proofs.
     \/ (str_raises isb = true /\ ev = EvRaise).
   Proof.
     intros isb s p ev. unfold SearchModel.search_str, SearchSpec.str_match, SearchSpec.str_raises.
-    destruct it as [[| | | |i|i]|b]; try (crush; fail).
+    destruct it as [[| | | |i|i]|b|w]; try (crush; fail).
     - destruct (match_string c), isb; cbn;
         try destruct (pystr_eqb i _); try destruct (contains_sub i _); crush.
     - destruct (match_string c), isb; cbn;
@@ -201,12 +205,13 @@ Section Proofs.
     (num_match a = true /\ ev = EvValue p (VAtom a)) \/ (num_raises = true /\ ev = EvRaise).
   Proof.
     intros a p ev. unfold SearchModel.search_numbers, SearchSpec.num_match, SearchSpec.num_raises, eq_item.
-    destruct it as [b|[|]].
+    destruct it as [b|[|]|w].
     - destruct (py_eq b a); cbn [orb]; [crush|].
       destruct (strict c); cbn [negb andb]; [crush|].
       destruct b; try destruct (pystr_eqb _ _); crush.
     - destruct (strict c); crush.
     - destruct (strict c); cbn [negb andb]; try destruct (re_search _); crush.
+    - destruct (strict c); crush.
   Qed.
 
   Lemma attr_events_iff : forall names p ev,
@@ -239,71 +244,76 @@ Section Proofs.
   Lemma py_eq_none : forall b, py_eq b ANone = true <-> b = ANone.
   Proof. intro b. destruct b; cbn; intuition discriminate. Qed.
 
-  Lemma text_raises_atom : forall a txt, it = EAtom a -> text_raises txt = false.
+  Lemma text_raises_noregex : forall txt, (forall b, it <> ERe b) -> text_raises txt = false.
   Proof.
-    intros a txt E. unfold SearchSpec.text_raises. rewrite E. apply andb_false_r.
+    intros txt H. unfold SearchSpec.text_raises. destruct it as [a|b|w]; try apply andb_false_r.
+    exfalso. apply (H b). reflexivity.
+  Qed.
+
+  Lemma attrs_of_notstr : forall a, is_strlike a = false -> attrs_of (VAtom a) = [].
+  Proof. intros a H. unfold SearchSpec.attrs_of. destruct obj_searched; auto. destruct a; try discriminate; auto. Qed.
+
+  Lemma attrs_of_unsearched : forall v, obj_searched = false -> attrs_of v = [].
+  Proof. intros v H. unfold SearchSpec.attrs_of. rewrite H. reflexivity. Qed.
+
+  (* a str / bytes that reaches __search_obj (item None or a container) *)
+  Lemma search_obj_str_iff : forall a p ev, is_strlike a = true -> obj_searched = true ->
+    (In ev (search_obj_atom a p) <-> local_ev p (VAtom a) ev).
+  Proof.
+    intros a p ev Ha Hos. rewrite local_ev_atom. unfold SearchModel.search_obj_atom.
+    assert (Hnr : forall b, it <> ERe b) by (intros b E; rewrite E in Hos; discriminate).
+    assert (Heq : eq_item it a = false).
+    { unfold eq_item. destruct it as [[| | | | |]|b|w]; try discriminate; auto. destruct a; try discriminate; reflexivity. }
+    assert (Hm : atom_match a = false).
+    { destruct a; try discriminate; cbn; unfold SearchSpec.str_match; destruct it as [[| | | | |]|b|w]; try discriminate; auto. }
+    assert (Hr : atom_raises a = false).
+    { destruct a; try discriminate; cbn; unfold SearchSpec.str_raises; destruct it as [[| | | | |]|b|w]; try discriminate; auto. }
+    rewrite Heq, Hm, Hr. cbn [app].
+    assert (Hev : In ev (match a with AStr _ => attr_events str_attrs p | ABytes _ => attr_events bytes_attrs p | _ => [] end)
+                  <-> exists n, In n (attrs_of (VAtom a)) /\ text_match (attr_text p n) = true /\ ev = EvAttr p n).
+    { unfold SearchSpec.attrs_of. rewrite Hos. destruct a; try discriminate; rewrite attr_events_iff; split.
+      - intros [n [Hn [[H1 H2]|[H1 H2]]]]; [eauto|]. rewrite text_raises_noregex in H1 by exact Hnr. discriminate.
+      - intros [n [Hn [H1 H2]]]. eauto.
+      - intros [n [Hn [[H1 H2]|[H1 H2]]]]; [eauto|]. rewrite text_raises_noregex in H1 by exact Hnr. discriminate.
+      - intros [n [Hn [H1 H2]]]. eauto. }
+    rewrite Hev. crush.
   Qed.
 
   Lemma search_leaf_iff : forall a p ev, In ev (search_leaf a p) <-> local_ev p (VAtom a) ev.
   Proof.
-    intros a p ev. rewrite local_ev_atom. unfold SearchModel.search_leaf.
-    destruct a as [|b0|z0|t0|s|s].
-    - (* None *)
-      cbn [is_strlike is_number andb]. unfold SearchModel.search_obj_atom, eq_item.
-      cbn [SearchSpec.atom_match SearchSpec.atom_raises SearchSpec.attrs_of].
-      rewrite app_nil_r.
-      assert (Hat : attrs_of (VAtom ANone) = []) by (unfold SearchSpec.attrs_of; destruct it as [[| | | | |]|]; auto).
-      rewrite Hat.
-      destruct it as [b|b].
-      + destruct (py_eq b ANone) eqn:E.
-        * apply py_eq_none in E. subst b. crush; try noattr.
-        * assert (b <> ANone) by (intro; subst; cbn in E; discriminate).
-          destruct b; crush; try noattr.
-      + crush; try noattr.
-    - cbn [is_strlike is_number andb]. rewrite search_numbers_iff.
-      assert (Hat : attrs_of (VAtom (ABool b0)) = []) by (unfold SearchSpec.attrs_of; destruct it as [[| | | | |]|]; auto).
-      rewrite Hat. cbn [SearchSpec.atom_match SearchSpec.atom_raises]. crush; try noattr.
-    - cbn [is_strlike is_number andb]. rewrite search_numbers_iff.
-      assert (Hat : attrs_of (VAtom (AInt z0)) = []) by (unfold SearchSpec.attrs_of; destruct it as [[| | | | |]|]; auto).
-      rewrite Hat. cbn [SearchSpec.atom_match SearchSpec.atom_raises]. crush; try noattr.
-    - cbn [is_strlike is_number andb]. rewrite search_numbers_iff.
-      assert (Hat : attrs_of (VAtom (AHalf t0)) = []) by (unfold SearchSpec.attrs_of; destruct it as [[| | | | |]|]; auto).
-      rewrite Hat. cbn [SearchSpec.atom_match SearchSpec.atom_raises]. crush; try noattr.
-    - (* str *)
-      cbn [is_strlike is_number andb SearchSpec.atom_match SearchSpec.atom_raises].
-      destruct it as [[|b1|z1|t1|i|i]|b] eqn:Eit;
-        cbn [item_is_str_or_re item_is_number is_number SearchSpec.attrs_of].
-      + (* item None: the str is searched as an object *)
-        unfold SearchModel.search_obj_atom, eq_item. cbn [py_eq num2 app].
-        rewrite <- Eit. rewrite attr_events_iff. rewrite Eit.
-        unfold SearchSpec.str_match, SearchSpec.str_raises. split.
-        * intros [n [Hn [[H1 H2]|[H1 H2]]]].
-          -- right. right. exists n. auto.
-          -- rewrite <- Eit in H1. rewrite (text_raises_atom ANone) in H1 by exact Eit. discriminate.
-        * intros [[H _]|[[H _]|[n [Hn [H1 H2]]]]]; try discriminate. exists n. auto.
-      + unfold SearchSpec.str_match, SearchSpec.str_raises. crush; try noattr.
-      + unfold SearchSpec.str_match, SearchSpec.str_raises. crush; try noattr.
-      + unfold SearchSpec.str_match, SearchSpec.str_raises. crush; try noattr.
-      + rewrite <- Eit. rewrite search_str_iff. rewrite Eit. crush; try noattr.
-      + rewrite <- Eit. rewrite search_str_iff. rewrite Eit. crush; try noattr.
-      + rewrite <- Eit. rewrite search_str_iff. rewrite Eit. crush; try noattr.
-    - (* bytes *)
-      cbn [is_strlike is_number andb SearchSpec.atom_match SearchSpec.atom_raises].
-      destruct it as [[|b1|z1|t1|i|i]|b] eqn:Eit;
-        cbn [item_is_str_or_re item_is_number is_number SearchSpec.attrs_of].
-      + unfold SearchModel.search_obj_atom, eq_item. cbn [py_eq num2 app].
-        rewrite <- Eit. rewrite attr_events_iff. rewrite Eit.
-        unfold SearchSpec.str_match, SearchSpec.str_raises. split.
-        * intros [n [Hn [[H1 H2]|[H1 H2]]]].
-          -- right. right. exists n. auto.
-          -- rewrite <- Eit in H1. rewrite (text_raises_atom ANone) in H1 by exact Eit. discriminate.
-        * intros [[H _]|[[H _]|[n [Hn [H1 H2]]]]]; try discriminate. exists n. auto.
-      + unfold SearchSpec.str_match, SearchSpec.str_raises. crush; try noattr.
-      + unfold SearchSpec.str_match, SearchSpec.str_raises. crush; try noattr.
-      + unfold SearchSpec.str_match, SearchSpec.str_raises. crush; try noattr.
-      + rewrite <- Eit. rewrite search_str_iff. rewrite Eit. crush; try noattr.
-      + rewrite <- Eit. rewrite search_str_iff. rewrite Eit. crush; try noattr.
-      + rewrite <- Eit. rewrite search_str_iff. rewrite Eit. crush; try noattr.
+    intros a p ev. unfold SearchModel.search_leaf.
+    destruct (is_strlike a) eqn:Hsl.
+    - (* str / bytes *)
+      cbn [andb]. destruct (item_is_str_or_re it) eqn:H1.
+      + rewrite local_ev_atom.
+        assert (Hos : obj_searched = false) by (destruct it as [[| | | | |]|b|w]; try discriminate; auto).
+        rewrite (attrs_of_unsearched _ Hos).
+        destruct a as [| | | |s|s]; try discriminate; rewrite search_str_iff; crush; try noattr.
+      + destruct (item_is_number it) eqn:H2.
+        * rewrite local_ev_atom.
+          assert (Hos : obj_searched = false) by (destruct it as [[| | | | |]|b|w]; try discriminate; auto).
+          rewrite (attrs_of_unsearched _ Hos).
+          destruct a as [| | | |s|s]; try discriminate; cbn [SearchSpec.atom_match SearchSpec.atom_raises];
+            unfold SearchSpec.str_match, SearchSpec.str_raises;
+            destruct it as [[| | | | |]|b|w]; try discriminate; crush; try noattr.
+        * assert (Hn : is_number a = false) by (destruct a; try discriminate; auto). rewrite Hn.
+          apply search_obj_str_iff; auto.
+          destruct it as [[| | | | |]|b|w]; try discriminate; auto.
+    - cbn [andb]. rewrite local_ev_atom, (attrs_of_notstr a Hsl).
+      destruct a as [|b0|z0|t0|s|s]; try discriminate; cbn [is_number].
+      + (* None *)
+        unfold SearchModel.search_obj_atom, eq_item. rewrite app_nil_r.
+        cbn [SearchSpec.atom_match SearchSpec.atom_raises].
+        destruct it as [b|b|w].
+        * destruct (py_eq b ANone) eqn:E.
+          -- apply py_eq_none in E. subst b. crush; try noattr.
+          -- assert (b <> ANone) by (intro; subst; cbn in E; discriminate).
+             destruct b; crush; try noattr.
+        * crush; try noattr.
+        * crush; try noattr.
+      + rewrite search_numbers_iff. cbn [SearchSpec.atom_match SearchSpec.atom_raises]. crush; try noattr.
+      + rewrite search_numbers_iff. cbn [SearchSpec.atom_match SearchSpec.atom_raises]. crush; try noattr.
+      + rewrite search_numbers_iff. cbn [SearchSpec.atom_match SearchSpec.atom_raises]. crush; try noattr.
   Qed.
 
   (* ---------- the equality shortcut of __search_iterable ---------- *)
@@ -318,48 +328,55 @@ Section Proofs.
   Lemma py_eq_bytes : forall b t, py_eq b (ABytes t) = true -> exists i, b = ABytes i /\ pystr_eqb i t = true.
   Proof. intros b t. destruct b; cbn; intro H; try discriminate. eauto. Qed.
 
-  Lemma shortcut_atom : forall x, shortcut x = true -> exists a, x = VAtom a.
+  Lemma shortcut_atom : forall x, atom_item = true -> shortcut x = true -> exists a, x = VAtom a.
   Proof.
-    intros x H. unfold SearchModel.shortcut in H. apply andb_true_iff in H. destruct H as [_ H].
-    destruct x; cbn in H; try discriminate. eauto.
+    intros x Hai H. unfold SearchModel.shortcut in H. apply andb_true_iff in H. destruct H as [_ H].
+    unfold thing_eq_item in H. destruct it as [b|b|w]; try discriminate;
+      destruct x; try discriminate; eauto.
   Qed.
 
-  Lemma shortcut_facts : forall a, shortcut (VAtom a) = true ->
+  Lemma shortcut_facts : forall a, atom_item = true -> shortcut (VAtom a) = true ->
     atom_match a = true /\ atom_raises a = false /\ attrs_of (VAtom a) = [].
   Proof.
-    intros a H. unfold SearchModel.shortcut in H. apply andb_true_iff in H. destruct H as [_ H].
-    cbn [thing_eq_item] in H. unfold eq_item in H.
-    destruct it as [b|b] eqn:Eit; [|discriminate].
+    intros a Hai H. unfold SearchModel.shortcut in H. apply andb_true_iff in H. destruct H as [_ H].
+    unfold thing_eq_item, eq_item in H.
+    assert (Hat : attrs_of (VAtom a) = []).
+    { destruct (is_strlike a) eqn:Hs; [|apply attrs_of_notstr; auto]. apply attrs_of_unsearched.
+      unfold SearchSpec.obj_searched. destruct it as [[| | | | |]|b|w]; try discriminate; auto.
+      destruct a; try discriminate; destruct cs; discriminate. }
+    split; [|split]; [| |exact Hat]; clear Hat;
+    destruct it as [b|b|w] eqn:Eit; try discriminate;
     destruct a as [|b0|z0|t0|s|s].
-    - assert (b = ANone) by (apply py_eq_none; destruct cs; exact H). subst b. cbn. auto.
+    - assert (b = ANone) by (apply py_eq_none; destruct cs; exact H). subst b. reflexivity.
     - assert (H' : py_eq b (ABool b0) = true) by (destruct cs; exact H).
-      cbn [SearchSpec.atom_match SearchSpec.atom_raises]. unfold SearchSpec.num_match, SearchSpec.num_raises.
-      rewrite H'. cbn. repeat split; auto. destruct b; reflexivity.
+      cbn [SearchSpec.atom_match]. unfold SearchSpec.num_match. rewrite H'. reflexivity.
     - assert (H' : py_eq b (AInt z0) = true) by (destruct cs; exact H).
-      cbn [SearchSpec.atom_match SearchSpec.atom_raises]. unfold SearchSpec.num_match, SearchSpec.num_raises.
-      rewrite H'. cbn. repeat split; auto. destruct b; reflexivity.
+      cbn [SearchSpec.atom_match]. unfold SearchSpec.num_match. rewrite H'. reflexivity.
     - assert (H' : py_eq b (AHalf t0) = true) by (destruct cs; exact H).
-      cbn [SearchSpec.atom_match SearchSpec.atom_raises]. unfold SearchSpec.num_match, SearchSpec.num_raises.
-      rewrite H'. cbn. repeat split; auto. destruct b; reflexivity.
+      cbn [SearchSpec.atom_match]. unfold SearchSpec.num_match. rewrite H'. reflexivity.
     - assert (H' : py_eq b (AStr (fold_s s)) = true) by (unfold SearchModel.fold_s; destruct cs; exact H).
       apply py_eq_str in H'. destruct H' as [i [Hb Hi]]. subst b.
-      cbn [SearchSpec.atom_match SearchSpec.atom_raises SearchSpec.attrs_of].
-      unfold SearchSpec.str_match, SearchSpec.str_raises. cbn [negb andb].
-      repeat split; auto.
+      cbn [SearchSpec.atom_match]. unfold SearchSpec.str_match. cbn [negb andb].
       destruct (match_string c); [exact Hi|]. apply pystr_eqb_eq in Hi. rewrite Hi. apply contains_sub_refl.
     - assert (H' : py_eq b (ABytes (fold_s s)) = true) by (unfold SearchModel.fold_s; destruct cs; exact H).
       apply py_eq_bytes in H'. destruct H' as [i [Hb Hi]]. subst b.
-      cbn [SearchSpec.atom_match SearchSpec.atom_raises SearchSpec.attrs_of].
-      unfold SearchSpec.str_match, SearchSpec.str_raises. cbn [negb andb].
-      repeat split; auto.
+      cbn [SearchSpec.atom_match]. unfold SearchSpec.str_match. cbn [negb andb].
       destruct (match_string c); [exact Hi|]. apply pystr_eqb_eq in Hi. rewrite Hi. apply contains_sub_refl.
+    - reflexivity.
+    - reflexivity.
+    - reflexivity.
+    - reflexivity.
+    - assert (H' : py_eq b (AStr (fold_s s)) = true) by (unfold SearchModel.fold_s; destruct cs; exact H).
+      apply py_eq_str in H'. destruct H' as [i [Hb _]]. subst b. reflexivity.
+    - assert (H' : py_eq b (ABytes (fold_s s)) = true) by (unfold SearchModel.fold_s; destruct cs; exact H).
+      apply py_eq_bytes in H'. destruct H' as [i [Hb _]]. subst b. reflexivity.
   Qed.
 
-  Lemma shortcut_local : forall a, shortcut (VAtom a) = true ->
-    forall p ev, local_ev p (VAtom a) ev <-> ev = EvValue p (VAtom a).
+  (* with an atom item, what equals the item also matches by its comparer *)
+  Lemma equals_item_leaf_match : forall v, atom_item = true -> shortcut v = true -> leaf_match v = true.
   Proof.
-    intros a H p ev. destruct (shortcut_facts a H) as [H1 [H2 H3]].
-    rewrite local_ev_atom. rewrite H1, H2, H3. crush. noattr.
+    intros v Hai H. destruct (shortcut_atom v Hai H) as [a Ha]. subst v.
+    apply (shortcut_facts a Hai H).
   Qed.
 
   Lemma thing_events_iff : forall srch x p' ev,
@@ -375,13 +392,19 @@ Section Proofs.
 
   Definition spec_ev (obj : value) (pre : path) (ev : event) : Prop :=
     item_excl = false /\
-    exists rest w, get_at obj rest = Some w /\ vis pre obj rest = true /\ local_ev (pre ++ rest) w ev.
+    exists rest w, get_at obj rest = Some w /\
+      ((vis true pre obj rest = true /\ local_ev (pre ++ rest) w ev)
+       \/ (vis false pre obj rest = true /\ vis true pre obj rest = false
+           /\ ev = EvValue (pre ++ rest) w)).
 
-  Lemma vis_head : forall pre obj rest, vis pre obj rest = true -> path_excl pre = false.
+  Lemma vis_head : forall e pre obj rest, vis e pre obj rest = true -> path_excl pre = false.
   Proof.
-    intros pre obj rest H. destruct rest; cbn in H; apply andb_true_iff in H; destruct H as [H _];
+    intros e pre obj rest H. destruct rest; cbn [SearchSpec.vis] in H; apply andb_true_iff in H; destruct H as [H _];
       apply negb_true_iff in H; exact H.
   Qed.
+
+  Lemma vis_nil : forall e pre obj, vis e pre obj [] = negb (path_excl pre).
+  Proof. intros. cbn. apply andb_true_r. Qed.
 
   Lemma child_atom : forall a s, child (VAtom a) s = None.
   Proof. intros a s. destruct s; reflexivity. Qed.
@@ -398,9 +421,10 @@ Section Proofs.
     intros a pre ev. unfold SearchModel.search_atom, SearchModel.skip_item, spec_ev. split.
     - destruct (path_excl pre) eqn:E1; [intros []|]. destruct item_excl eqn:E2; [intros []|].
       cbn [orb]. intro H. apply search_leaf_iff in H. split; auto.
-      exists [], (VAtom a). cbn. rewrite E1, app_nil_r. auto.
-    - intros [Hi [rest [w [Hg [Hv Hl]]]]]. apply get_at_atom in Hg. destruct Hg; subst.
-      apply vis_head in Hv. rewrite Hv, Hi. cbn [orb]. apply search_leaf_iff.
+      exists [], (VAtom a). split; [reflexivity|]. left. rewrite vis_nil, E1, app_nil_r. auto.
+    - intros [Hi [rest [w [Hg HH]]]]. apply get_at_atom in Hg. destruct Hg; subst.
+      rewrite !vis_nil in HH. destruct HH as [[Hv Hl]|[Hv1 [Hv2 _]]]; [|congruence].
+      apply negb_true_iff in Hv. rewrite Hv, Hi. cbn [orb]. apply search_leaf_iff.
       rewrite app_nil_r in Hl. exact Hl.
   Qed.
 
@@ -420,30 +444,35 @@ Section Proofs.
       apply thing_events_iff in H. destruct H as [Hsk H]. unfold SearchModel.skip_this in Hsk.
       apply orb_false_iff in Hsk. destruct Hsk as [Hp' Hty].
       split; auto. destruct H as [[Hsc Hev]|[Hsc Hin]].
-      + exists [SIdx i], x. cbn [get_at SearchSpec.vis]. rewrite Hidx, Hn.
-        cbn [step_is_idx]. rewrite E1, Hp', Hty. cbn. repeat split; auto.
-        destruct (shortcut_atom x Hsc) as [a Ha]. subst x. apply shortcut_local; auto.
+      + exists [SIdx i], x. split; [cbn [get_at]; rewrite Hidx, Hn; reflexivity|]. right.
+        cbn [SearchSpec.vis]. rewrite Hidx, Hn. cbn [step_is_idx is_nil]. rewrite E1, Hp', Hty, Hsc. cbn. auto.
       + apply IH in Hin; [|eapply nth_error_In; eauto].
-        destruct Hin as [_ [rest [w [Hg [Hv Hl]]]]].
-        exists (SIdx i :: rest), w. cbn [get_at SearchSpec.vis]. rewrite Hidx, Hn.
-        cbn [step_is_idx]. rewrite E1, Hty, Hv. cbn. repeat split; auto.
-        rewrite <- app_assoc in Hl. exact Hl.
-    - intros [Hi [rest [w [Hg [Hv Hl]]]]]. destruct rest as [|s r].
-      + cbn in Hg. inversion Hg; subst w. exfalso. eapply Hloc; eauto.
-      + cbn [get_at SearchSpec.vis] in Hg, Hv. destruct s as [k|i].
+        destruct Hin as [_ [rest [w [Hg HH]]]].
+        exists (SIdx i :: rest), w. split; [cbn [get_at]; rewrite Hidx, Hn; exact Hg|].
+        cbn [SearchSpec.vis]. rewrite Hidx, Hn. cbn [step_is_idx]. rewrite E1, Hty, Hsc. cbn [negb andb].
+        rewrite <- app_assoc in HH. cbn [app] in HH.
+        destruct HH as [[Hv Hl]|[Hv1 [Hv2 Hev]]]; [left|right]; auto.
+    - intros [Hi [rest [w [Hg HH]]]]. destruct rest as [|s r].
+      + cbn in Hg. inversion Hg; subst w. rewrite !vis_nil in HH.
+        destruct HH as [[_ Hl]|[Hv1 [Hv2 _]]]; [|congruence]. exfalso. eapply Hloc; eauto.
+      + cbn [get_at SearchSpec.vis] in Hg, HH. destruct s as [k|i].
         { rewrite Hkey in Hg. discriminate. }
-        rewrite Hidx in Hg, Hv. destruct (nth_error ys i) as [x|] eqn:Hn; [|discriminate].
-        cbn [step_is_idx andb] in Hv.
-        apply andb_true_iff in Hv. destruct Hv as [Hv1 Hv]. apply andb_true_iff in Hv. destruct Hv as [Hv2 Hv3].
-        apply negb_true_iff in Hv1. apply negb_true_iff in Hv2.
-        rewrite Hv1, Hi. cbn [orb]. apply Hevs. exists i, x. split; auto.
-        apply thing_events_iff. split.
-        { unfold SearchModel.skip_this. rewrite (vis_head _ _ _ Hv3), Hv2. reflexivity. }
-        destruct (shortcut x) eqn:Hsc.
-        * left. split; auto. destruct (shortcut_atom x Hsc) as [a Ha]. subst x.
-          apply get_at_atom in Hg. destruct Hg; subst. apply (shortcut_local a Hsc) in Hl. exact Hl.
-        * right. split; auto. apply IH; [eapply nth_error_In; eauto|]. split; auto.
-          exists r, w. repeat split; auto. rewrite <- app_assoc. exact Hl.
+        rewrite Hidx in Hg, HH. destruct (nth_error ys i) as [x|] eqn:Hn; [|discriminate].
+        cbn [step_is_idx andb] in HH.
+        destruct (path_excl pre) eqn:E1; [destruct HH as [[Hv _]|[Hv _]]; discriminate|].
+        destruct (ty_excl (type_of x)) eqn:Hty; [destruct HH as [[Hv _]|[Hv _]]; discriminate|].
+        cbn [negb andb orb] in HH. rewrite Hi. cbn [orb]. apply Hevs. exists i, x. split; auto.
+        apply thing_events_iff. destruct (shortcut x) eqn:Hsc.
+        * cbn [negb andb orb] in HH. destruct HH as [[Hv _]|[Hv1 [_ Hev]]]; [discriminate|].
+          destruct r as [|s' r']; [|discriminate]. cbn in Hg. inversion Hg; subst w.
+          cbn [is_nil negb andb] in Hv1. split.
+          { unfold SearchModel.skip_this. rewrite (vis_head _ _ _ _ Hv1), Hty. reflexivity. }
+          left. auto.
+        * cbn [negb andb] in HH. split.
+          { unfold SearchModel.skip_this. rewrite Hty.
+            destruct HH as [[Hv _]|[Hv _]]; rewrite (vis_head _ _ _ _ Hv); reflexivity. }
+          right. split; auto. apply IH; [eapply nth_error_In; eauto|]. split; auto.
+          exists r, w. split; auto. rewrite <- app_assoc. cbn [app]. exact HH.
   Qed.
 
   Definition iter_list (pre : path) :=
@@ -535,7 +564,7 @@ Section Proofs.
   Lemma attrs_of_nonatom : forall w n, In n (attrs_of w) -> exists a, w = VAtom a.
   Proof.
     intros w n H. unfold SearchSpec.attrs_of in H.
-    destruct it as [[| | | | |]|]; try destruct H.
+    destruct obj_searched; [|destruct H].
     destruct w as [a| | | | |]; try destruct H. eauto.
   Qed.
 
@@ -574,18 +603,20 @@ Section Proofs.
         cbn [orb]. intro H. apply iter_dict_in in H. destruct H as [[k ch] [Hin H]]. cbn [fst snd] in H.
         split; auto. destruct H as [H|H].
         * unfold SearchModel.path_event in H. apply path_test_iff in H.
-          exists [], (VDict kvs). cbn [get_at SearchSpec.vis]. rewrite E1, app_nil_r. cbn.
-          repeat split; auto. destruct H as [[H1 [H2|[]]]|[H1 H2]]; subst ev.
+          exists [], (VDict kvs). split; [reflexivity|]. left. rewrite vis_nil, E1, app_nil_r.
+          split; auto. destruct H as [[H1 [H2|[]]]|[H1 H2]]; subst ev.
           -- eapply LPath; eauto.
           -- eapply LPathRaise; eauto.
-        * apply (IH (k, ch) Hin (Hwfc _ Hin)) in H. destruct H as [_ [rest [w [Hg [Hv Hl]]]]].
-          cbn [snd] in Hg, Hv.
+        * apply (IH (k, ch) Hin (Hwfc _ Hin)) in H. destruct H as [_ [rest [w [Hg HH]]]].
+          cbn [snd] in Hg, HH.
           exists (SKey k :: rest), w. cbn [get_at SearchSpec.vis child].
           rewrite (find_key_in kvs k ch Hnd Hin). cbn [option_map snd step_is_idx andb negb].
-          rewrite E1, Hv. cbn. repeat split; auto. rewrite <- app_assoc in Hl. exact Hl.
-      + intros [Hi [rest [w [Hg [Hv Hl]]]]]. destruct rest as [|s r].
-        * cbn in Hg. inversion Hg; subst w. cbn [SearchSpec.vis] in Hv.
-          apply andb_true_iff in Hv. destruct Hv as [Hv _]. apply negb_true_iff in Hv.
+          rewrite E1. cbn [negb andb]. split; auto.
+          rewrite <- app_assoc in HH. cbn [app] in HH. exact HH.
+      + intros [Hi [rest [w [Hg HH]]]]. destruct rest as [|s r].
+        * cbn in Hg. inversion Hg; subst w. rewrite !vis_nil in HH.
+          destruct HH as [[Hv Hl]|[Hv1 [Hv2 _]]]; [|congruence].
+          apply negb_true_iff in Hv.
           rewrite Hv, Hi. cbn [orb]. rewrite app_nil_r in Hl. apply iter_dict_in.
           inversion Hl as [Hm|Hr|n Hn Ht|kvs' k ch Hw Hink Hpm|kvs' k ch Hw Hink Htr].
           -- cbn in Hm. discriminate.
@@ -595,15 +626,16 @@ Section Proofs.
              unfold SearchModel.path_event. apply path_test_iff. left. split; [exact Hpm|left; auto].
           -- inversion Hw; subst kvs'. exists (k, ch). split; auto. left. cbn [fst snd].
              unfold SearchModel.path_event. apply path_test_iff. right. split; auto.
-        * cbn [get_at SearchSpec.vis] in Hg, Hv. destruct s as [k|i]; [|discriminate].
-          cbn [child] in Hg, Hv.
+        * cbn [get_at SearchSpec.vis] in Hg, HH. destruct s as [k|i]; [|discriminate].
+          cbn [child] in Hg, HH.
           destruct (find (fun kv => atom_eqb (fst kv) k) kvs) as [kv|] eqn:Hf; [|discriminate].
-          apply find_key_some in Hf. destruct Hf as [Hin Hk]. cbn [option_map] in Hg, Hv.
-          cbn [step_is_idx andb negb] in Hv. apply andb_true_iff in Hv. destruct Hv as [Hv1 Hv2].
-          apply negb_true_iff in Hv1. rewrite Hv1, Hi. cbn [orb].
+          apply find_key_some in Hf. destruct Hf as [Hin Hk]. cbn [option_map] in Hg, HH.
+          cbn [step_is_idx andb negb] in HH.
+          destruct (path_excl pre) eqn:E1; [destruct HH as [[Hv _]|[Hv _]]; discriminate|].
+          cbn [negb andb] in HH. rewrite Hi. cbn [orb].
           apply iter_dict_in. exists kv. split; auto. right. rewrite Hk.
-          apply (IH kv Hin (Hwfc _ Hin)). split; auto. exists r, w. repeat split; auto.
-          rewrite <- app_assoc. exact Hl.
+          apply (IH kv Hin (Hwfc _ Hin)). split; auto. exists r, w. split; auto.
+          rewrite <- app_assoc. cbn [app]. exact HH.
     - rewrite search_set_eq.
       apply (seq_case (VSet xs) (map VAtom xs) (fun x => search x) (fun pre => iter_atoms pre xs 0)).
       + intro i. cbn [child]. symmetry. apply nth_error_map_atom.
@@ -846,56 +878,106 @@ Section Proofs.
     - intros [H|[kvs [k [ch [H1 [H2 H3]]]]]]; [apply LRaise; auto|eapply LPathRaise; eauto].
   Qed.
 
+  Lemma vis_true_false : forall rest pre obj, vis true pre obj rest = true -> vis false pre obj rest = true.
+  Proof.
+    induction rest as [|s r IH]; intros pre obj H; [exact H|].
+    cbn [SearchSpec.vis] in *. destruct (path_excl pre); [discriminate|]. cbn [negb andb] in *.
+    destruct (child obj s) as [ch|]; [|discriminate].
+    apply andb_true_iff in H. destruct H as [H H3]. apply andb_true_iff in H. destruct H as [H1 H2].
+    rewrite H1, (IH _ _ H3). cbn [andb orb] in *. rewrite andb_true_r in H2.
+    apply negb_true_iff in H2. rewrite H2. reflexivity.
+  Qed.
+
+  (* reached but not entered: an item of a list / tuple / set that equals the searched item *)
+  Lemma vis_diff : forall rest pre obj w,
+    vis false pre obj rest = true -> vis true pre obj rest = false -> get_at obj rest = Some w ->
+    last_is_idx rest = true /\ shortcut w = true.
+  Proof.
+    induction rest as [|s r IH]; intros pre obj w H1 H2 Hg; [rewrite vis_nil in *; congruence|].
+    cbn [SearchSpec.vis get_at] in *. destruct (path_excl pre); [discriminate|]. cbn [negb andb] in *.
+    destruct (child obj s) as [ch|]; [|discriminate].
+    destruct (step_is_idx s && ty_excl (type_of ch)); [discriminate|]. cbn [negb andb orb] in *.
+    destruct (step_is_idx s && shortcut ch) eqn:B; cbn [negb andb orb] in *.
+    - destruct r as [|s' r']; [|discriminate]. cbn in Hg. inversion Hg; subst w.
+      apply andb_true_iff in B. destruct B as [B1 B2]. cbn [last_is_idx]. auto.
+    - destruct (IH _ _ _ H1 H2 Hg) as [Hl Hs]. split; auto.
+      destruct r as [|s' r']; [discriminate|]. exact Hl.
+  Qed.
+
+  Lemma vis_true_not_shortcut : forall rest pre obj w,
+    vis true pre obj rest = true -> get_at obj rest = Some w -> last_is_idx rest = true -> shortcut w = false.
+  Proof.
+    induction rest as [|s r IH]; intros pre obj w H Hg Hl; [discriminate|].
+    cbn [SearchSpec.vis get_at] in *. destruct (path_excl pre); [discriminate|]. cbn [negb andb] in *.
+    destruct (child obj s) as [ch|]; [|discriminate].
+    apply andb_true_iff in H. destruct H as [H H3]. apply andb_true_iff in H. destruct H as [H1 H2].
+    destruct r as [|s' r'].
+    - cbn in Hg. inversion Hg; subst w. cbn [last_is_idx] in Hl. rewrite Hl in H2. cbn [andb orb] in H2.
+      rewrite andb_true_r in H2. apply negb_true_iff in H2. exact H2.
+    - apply (IH _ _ _ H3 Hg). exact Hl.
+  Qed.
+
   Theorem values_iff : forall obj, wf obj = true -> forall q v,
     In (EvValue q v) (search obj []) <->
-    item_excl = false /\ get_at obj q = Some v /\ vis [] obj q = true /\ leaf_match v = true.
+    item_excl = false /\ get_at obj q = Some v /\ vis false [] obj q = true
+    /\ match_at (last_is_idx q) v = true.
   Proof.
-    intros obj Hwf q v. rewrite search_iff by exact Hwf. unfold spec_ev. cbn [app]. split.
-    - intros [Hi [rest [w [Hg [Hv Hl]]]]]. apply local_ev_value in Hl. destruct Hl as [H1 [H2 H3]]. subst. auto.
-    - intros [Hi [Hg [Hv Hm]]]. split; auto. exists q, v. repeat split; auto. apply LValue. exact Hm.
+    intros obj Hwf q v. rewrite search_iff by exact Hwf. unfold spec_ev, SearchSpec.match_at. cbn [app]. split.
+    - intros [Hi [rest [w [Hg [[Hv Hl]|[Hv1 [Hv2 Hev]]]]]]].
+      + apply local_ev_value in Hl. destruct Hl as [H1 [H2 H3]]. subst.
+        rewrite H3. auto using vis_true_false.
+      + inversion Hev; subst. destruct (vis_diff _ _ _ _ Hv1 Hv2 Hg) as [H1 H2].
+        rewrite H1, H2. cbn. rewrite orb_true_r. auto.
+    - intros [Hi [Hg [Hv Hm]]]. split; auto. exists q, v. split; auto.
+      destruct (vis true [] obj q) eqn:Hvt.
+      + left. split; auto. apply LValue. destruct (leaf_match v); auto. cbn [orb] in Hm.
+        apply andb_true_iff in Hm. destruct Hm as [Hl Hs].
+        rewrite (vis_true_not_shortcut _ _ _ _ Hvt Hg Hl) in Hs. discriminate.
+      + right. auto.
   Qed.
 
   Theorem paths_iff : forall obj, wf obj = true -> forall q v,
     In (EvPath q v) (search obj []) <->
     item_excl = false /\
     exists par kvs k, q = (par ++ [SKey k])%list /\ get_at obj par = Some (VDict kvs) /\ In (k, v) kvs
-                      /\ vis [] obj par = true /\ path_match q = true.
+                      /\ vis true [] obj par = true /\ path_match q = true.
   Proof.
     intros obj Hwf q v. rewrite search_iff by exact Hwf. unfold spec_ev. cbn [app]. split.
-    - intros [Hi [rest [w [Hg [Hv Hl]]]]]. apply local_ev_path in Hl.
+    - intros [Hi [rest [w [Hg [[Hv Hl]|[_ [_ Hev]]]]]]]; [|discriminate]. apply local_ev_path in Hl.
       destruct Hl as [kvs [k [H1 [H2 [H3 H4]]]]]. subst. split; auto. exists rest, kvs, k. auto.
     - intros [Hi [par [kvs [k [H1 [H2 [H3 [H4 H5]]]]]]]]. split; auto. exists par, (VDict kvs).
-      repeat split; auto. apply local_ev_path. exists kvs, k. auto.
+      split; auto. left. split; auto. apply local_ev_path. exists kvs, k. auto.
   Qed.
 
   Theorem attrs_iff : forall obj, wf obj = true -> forall q n,
     In (EvAttr q n) (search obj []) <->
     item_excl = false /\
-    exists w, get_at obj q = Some w /\ vis [] obj q = true /\ In n (attrs_of w)
+    exists w, get_at obj q = Some w /\ vis true [] obj q = true /\ In n (attrs_of w)
               /\ text_match (attr_text q n) = true.
   Proof.
     intros obj Hwf q n. rewrite search_iff by exact Hwf. unfold spec_ev. cbn [app]. split.
-    - intros [Hi [rest [w [Hg [Hv Hl]]]]]. apply local_ev_attr in Hl. destruct Hl as [H1 [H2 H3]]. subst.
+    - intros [Hi [rest [w [Hg [[Hv Hl]|[_ [_ Hev]]]]]]]; [|discriminate].
+      apply local_ev_attr in Hl. destruct Hl as [H1 [H2 H3]]. subst.
       split; auto. exists w. auto.
-    - intros [Hi [w [Hg [Hv [H1 H2]]]]]. split; auto. exists q, w. repeat split; auto.
+    - intros [Hi [w [Hg [Hv [H1 H2]]]]]. split; auto. exists q, w. split; auto. left. split; auto.
       apply local_ev_attr. auto.
   Qed.
 
   Theorem raise_iff : forall obj, wf obj = true ->
     In EvRaise (search obj []) <->
     item_excl = false /\
-    ((exists q w, get_at obj q = Some w /\ vis [] obj q = true /\ leaf_raises w = true)
-     \/ (exists par kvs k ch, get_at obj par = Some (VDict kvs) /\ In (k, ch) kvs /\ vis [] obj par = true
+    ((exists q w, get_at obj q = Some w /\ vis true [] obj q = true /\ leaf_raises w = true)
+     \/ (exists par kvs k ch, get_at obj par = Some (VDict kvs) /\ In (k, ch) kvs /\ vis true [] obj par = true
                               /\ text_raises (fold_s (render (par ++ [SKey k]))) = true)).
   Proof.
     intros obj Hwf. rewrite search_iff by exact Hwf. unfold spec_ev. cbn [app]. split.
-    - intros [Hi [rest [w [Hg [Hv Hl]]]]]. apply local_ev_raise in Hl. split; auto.
+    - intros [Hi [rest [w [Hg [[Hv Hl]|[_ [_ Hev]]]]]]]; [|discriminate]. apply local_ev_raise in Hl. split; auto.
       destruct Hl as [H|[kvs [k [ch [H1 [H2 H3]]]]]].
       + left. exists rest, w. auto.
       + right. subst w. exists rest, kvs, k, ch. auto.
     - intros [Hi [[q [w [Hg [Hv H]]]]|[par [kvs [k [ch [Hg [Hin [Hv H]]]]]]]]]; split; auto.
-      + exists q, w. repeat split; auto. apply local_ev_raise. auto.
-      + exists par, (VDict kvs). repeat split; auto. apply local_ev_raise. right. exists kvs, k, ch. auto.
+      + exists q, w. split; auto. left. split; auto. apply local_ev_raise. auto.
+      + exists par, (VDict kvs). split; auto. left. split; auto. apply local_ev_raise. right. exists kvs, k, ch. auto.
   Qed.
 
   (* ---------- against the list specifications ---------- *)
@@ -949,14 +1031,31 @@ Section Proofs.
       apply negb_true_iff in H1; apply negb_true_iff in H2; auto.
   Qed.
 
-  Lemma vis_doc_implies_vis : forall rest pre obj, vis_doc pre obj rest = true -> vis pre obj rest = true.
+  (* with an atom item, what is visible in the documented sense is reached by the search *)
+  Lemma vis_doc_implies_vis : forall rest pre obj, atom_item = true ->
+    vis_doc pre obj rest = true -> vis false pre obj rest = true.
   Proof.
-    induction rest as [|s r IH]; intros pre obj H.
-    - destruct (vis_doc_head _ _ _ H) as [H1 _]. cbn. rewrite H1. reflexivity.
+    induction rest as [|s r IH]; intros pre obj Hai H.
+    - destruct (vis_doc_head _ _ _ H) as [H1 _]. rewrite vis_nil, H1. reflexivity.
     - destruct (vis_doc_head _ _ _ H) as [H1 H2]. cbn [SearchSpec.vis_doc SearchSpec.vis] in *.
-      rewrite H1, H2 in H. cbn [negb andb] in H. rewrite H1. cbn [negb andb].
+      rewrite H1, H2 in H. cbn [negb andb] in H. rewrite H1. cbn [negb andb orb].
       destruct (child obj s) as [ch|]; [|discriminate].
-      destruct (vis_doc_head _ _ _ H) as [_ H3]. rewrite H3, andb_false_r. cbn [negb andb]. auto.
+      destruct (vis_doc_head _ _ _ H) as [_ H3]. rewrite H3, andb_false_r. cbn [negb andb].
+      rewrite (IH _ _ Hai H), andb_true_r.
+      destruct (step_is_idx s && shortcut ch) eqn:B; auto. cbn [andb].
+      destruct r as [|s' r']; auto. exfalso.
+      apply andb_true_iff in B. destruct B as [_ B]. destruct (shortcut_atom ch Hai B) as [a Ha]. subst ch.
+      cbn [SearchSpec.vis_doc] in H. rewrite child_atom in H. rewrite andb_false_r in H. discriminate.
+  Qed.
+
+  (* a container that is reached is entered, when the item is an atom *)
+  Lemma vis_enter_container : forall rest pre obj w, atom_item = true ->
+    vis false pre obj rest = true -> get_at obj rest = Some w -> (forall a, w <> VAtom a) ->
+    vis true pre obj rest = true.
+  Proof.
+    intros rest pre obj w Hai Hv Hg Hna. destruct (vis true pre obj rest) eqn:E; auto.
+    destruct (vis_diff _ _ _ _ Hv E Hg) as [_ Hs]. destruct (shortcut_atom w Hai Hs) as [a Ha].
+    exfalso. apply (Hna a Ha).
   Qed.
 
   Lemma child_dvo_idx : forall f obj i ch, dict_values_ok f obj = true -> child obj (SIdx i) = Some ch ->
@@ -978,19 +1077,19 @@ Section Proofs.
     apply andb_true_iff in Hin. destruct Hin as [H1 H2]. apply negb_true_iff in H1. auto.
   Qed.
 
-  Lemma vis_eq_doc : forall rest pre obj,
+  (* under the K16 guard, whatever the search reaches is visible in the documented sense *)
+  Lemma vis_implies_doc : forall rest e pre obj,
     ty_excl (type_of obj) = false -> dict_values_ok ty_excl obj = true ->
-    vis pre obj rest = vis_doc pre obj rest.
+    vis e pre obj rest = true -> vis_doc pre obj rest = true.
   Proof.
-    induction rest as [|s r IH]; intros pre obj Ht Hd; cbn [SearchSpec.vis SearchSpec.vis_doc]; rewrite Ht.
-    - destruct (path_excl pre); reflexivity.
-    - destruct (path_excl pre); [reflexivity|]. cbn [negb andb].
-      destruct (child obj s) as [ch|] eqn:Hc; [|reflexivity]. destruct s as [k|i]; cbn [step_is_idx andb negb].
-      + destruct (child_dvo_key _ _ _ _ Hd Hc) as [H1 H2]. apply IH; auto.
-      + pose proof (child_dvo_idx _ _ _ _ Hd Hc) as H2. destruct (ty_excl (type_of ch)) eqn:Hty.
-        * cbn [negb andb]. symmetry. destruct (vis_doc (pre ++ [SIdx i]) ch r) eqn:E; auto.
-          destruct (vis_doc_head _ _ _ E) as [_ E2]. congruence.
-        * cbn [negb andb]. apply IH; auto.
+    induction rest as [|s r IH]; intros e pre obj Ht Hd H; cbn [SearchSpec.vis SearchSpec.vis_doc] in *; rewrite Ht.
+    - destruct (path_excl pre); [discriminate|reflexivity].
+    - destruct (path_excl pre); [discriminate|]. cbn [negb andb] in *.
+      destruct (child obj s) as [ch|] eqn:Hc; [|discriminate].
+      apply andb_true_iff in H. destruct H as [H H3]. apply andb_true_iff in H. destruct H as [H1 _].
+      destruct s as [k|i]; cbn [step_is_idx andb negb] in H1.
+      + destruct (child_dvo_key _ _ _ _ Hd Hc) as [Hk1 Hk2]. eapply IH; eauto.
+      + apply negb_true_iff in H1. eapply IH; eauto. eapply child_dvo_idx; eauto.
   Qed.
 
   Lemma dvo_get : forall f par obj w, dict_values_ok f obj = true -> get_at obj par = Some w ->
@@ -1078,13 +1177,16 @@ Section Proofs.
       eapply IH; eauto using child_dpo.
   Qed.
 
-  Lemma vis_prefix : forall par pre obj tail, vis pre obj (par ++ tail) = true -> vis pre obj par = true.
+  Lemma vis_prefix : forall par e pre obj tail, vis e pre obj (par ++ tail) = true -> vis false pre obj par = true.
   Proof.
-    induction par as [|s r IH]; intros pre obj tail Hd.
-    - apply vis_head in Hd. cbn. rewrite Hd. reflexivity.
-    - cbn [app SearchSpec.vis] in *. destruct (path_excl pre); [discriminate|]. cbn [negb andb] in *.
+    induction par as [|s r IH]; intros e pre obj tail Hd.
+    - apply vis_head in Hd. rewrite vis_nil, Hd. reflexivity.
+    - cbn [app SearchSpec.vis] in *. destruct (path_excl pre); [discriminate|]. cbn [negb andb orb] in *.
       destruct (child obj s) as [ch|]; [|discriminate].
-      apply andb_true_iff in Hd. destruct Hd as [Hd1 Hd2]. rewrite Hd1. cbn [andb]. eapply IH. exact Hd2.
+      apply andb_true_iff in Hd. destruct Hd as [Hd Hd3]. apply andb_true_iff in Hd. destruct Hd as [Hd1 Hd2].
+      rewrite Hd1, (IH _ _ _ _ Hd3). cbn [andb]. rewrite andb_true_r.
+      destruct (step_is_idx s && shortcut ch); auto. cbn [andb] in *.
+      destruct r as [|s' r']; auto. cbn [app is_nil] in Hd2. rewrite orb_true_r in Hd2. discriminate.
   Qed.
 
   Theorem exclusions_values_partial : forall obj, wf obj = true -> k16_guard obj = true ->
@@ -1092,7 +1194,7 @@ Section Proofs.
   Proof.
     intros obj Hwf Hg q v H. apply values_iff in H; auto. destruct H as [_ [_ [Hv _]]].
     unfold SearchSpec.k16_guard in Hg. apply andb_true_iff in Hg. destruct Hg as [H1 H2].
-    apply negb_true_iff in H1. rewrite <- (vis_eq_doc q [] obj H1 H2). exact Hv.
+    apply negb_true_iff in H1. apply (vis_implies_doc q false [] obj H1 H2 Hv).
   Qed.
 
   Theorem exclusions_paths_partial : forall obj, wf obj = true ->
@@ -1102,7 +1204,7 @@ Section Proofs.
     intros obj Hwf Hg Hgb q v H. apply paths_iff in H; auto.
     destruct H as [_ [par [kvs [k [Hq [Hgp [Hin [Hv _]]]]]]]]. subst q.
     unfold SearchSpec.k16_guard in Hg. apply andb_true_iff in Hg. destruct Hg as [H1 H2].
-    apply negb_true_iff in H1. rewrite (vis_eq_doc par [] obj H1 H2) in Hv.
+    apply negb_true_iff in H1. apply (vis_implies_doc par true [] obj H1 H2) in Hv.
     apply (vis_doc_snoc par [] obj (SKey k) (VDict kvs) v); auto.
     - apply child_key_iff; [eapply get_at_wf; eauto|eauto].
     - cbn [app]. apply (dpo_get _ par obj [] kvs k v Hgb Hgp Hin).
@@ -1111,30 +1213,36 @@ Section Proofs.
       apply negb_true_iff in Hin. exact Hin.
   Qed.
 
-  Theorem complete_doc : forall obj, wf obj = true -> item_excl = false ->
+  Theorem complete_doc : forall obj, wf obj = true -> item_excl = false -> atom_item = true ->
     forall q v, In (q, v) (matches_spec_doc obj) -> In (EvValue q v) (search obj []).
   Proof.
-    intros obj Hwf Hi q v H. unfold SearchSpec.matches_spec_doc in H. apply filter_In in H.
+    intros obj Hwf Hi Hai q v H. unfold SearchSpec.matches_spec_doc in H. apply filter_In in H.
     destruct H as [Hl H]. cbn [fst snd] in H. apply andb_true_iff in H. destruct H as [Hv Hm].
     apply values_iff; auto. apply in_locations_root in Hl; auto.
     repeat split; auto using vis_doc_implies_vis.
+    unfold SearchSpec.match_at. unfold SearchSpec.item_match in Hm. apply orb_true_iff in Hm.
+    destruct Hm as [Hm|Hm]; [rewrite Hm; reflexivity|].
+    rewrite (equals_item_leaf_match v Hai Hm). reflexivity.
   Qed.
 
-  Theorem values_exact_doc : forall obj, wf obj = true -> item_excl = false -> k16_guard obj = true ->
+  Theorem values_exact_doc : forall obj, wf obj = true -> item_excl = false -> atom_item = true ->
+    k16_guard obj = true ->
     forall q v, In (EvValue q v) (search obj []) <-> In (q, v) (matches_spec_doc obj).
   Proof.
-    intros obj Hwf Hi Hg q v. split; [|apply complete_doc; auto].
+    intros obj Hwf Hi Hai Hg q v. split; [|apply complete_doc; auto].
     intro H. pose proof (exclusions_values_partial obj Hwf Hg q v H) as Hd.
     apply values_iff in H; auto. destruct H as [_ [Hgq [_ Hm]]].
-    unfold SearchSpec.matches_spec_doc. apply filter_In. cbn [fst snd]. rewrite Hd, Hm.
-    split; auto. apply in_locations_root; auto.
+    unfold SearchSpec.matches_spec_doc. apply filter_In. cbn [fst snd]. rewrite Hd.
+    split; [apply in_locations_root; auto|]. cbn [andb].
+    unfold SearchSpec.match_at in Hm. unfold SearchSpec.item_match.
+    destruct (leaf_match v); auto. cbn [orb] in *. apply andb_true_iff in Hm. tauto.
   Qed.
 
-  Theorem paths_exact_doc : forall obj, wf obj = true -> item_excl = false ->
+  Theorem paths_exact_doc : forall obj, wf obj = true -> item_excl = false -> atom_item = true ->
     k16_guard obj = true -> k16b_guard obj = true ->
     forall q v, In (EvPath q v) (search obj []) <-> In (q, v) (paths_spec_doc obj).
   Proof.
-    intros obj Hwf Hi Hg Hgb q v. split.
+    intros obj Hwf Hi Hai Hg Hgb q v. split.
     - intro H. pose proof (exclusions_paths_partial obj Hwf Hg Hgb q v H) as Hd.
       apply paths_exact in H; auto. unfold SearchSpec.paths_spec in H. rewrite Hi in H.
       apply filter_In in H. destruct H as [Hl H]. cbn [fst snd] in H.
@@ -1147,8 +1255,12 @@ Section Proofs.
       destruct (entry_parent q) as [par|] eqn:Hep; [|discriminate].
       apply andb_true_iff in H. destruct H as [Hd Hm]. rewrite Hm, andb_true_r.
       apply entry_parent_iff in Hep. destruct Hep as [k Hq]. subst q.
-      apply vis_doc_implies_vis in Hd.
-      apply (vis_prefix par [] obj [SKey k] Hd).
+      apply (vis_doc_implies_vis _ _ _ Hai) in Hd. apply vis_prefix in Hd.
+      apply in_locations_root in Hl; auto. rewrite get_at_app in Hl.
+      destruct (get_at obj par) as [w|] eqn:Hgp; [|discriminate]. cbn [get_at] in Hl.
+      destruct (child w (SKey k)) as [ch|] eqn:Hc; [|discriminate].
+      apply (vis_enter_container par [] obj w Hai Hd Hgp).
+      intros a Ha. subst w. rewrite child_atom in Hc. discriminate.
   Qed.
 
   (* ---------- TypeError ---------- *)
@@ -1182,12 +1294,11 @@ Section Proofs.
 
   (* ---------- finding K16f confined ---------- *)
 
-  Theorem no_attr_partial : forall obj, wf obj = true -> it <> EAtom ANone ->
+  Theorem no_attr_partial : forall obj, wf obj = true -> obj_searched = false ->
     forall q n, ~ In (EvAttr q n) (search obj []).
   Proof.
     intros obj Hwf Hit q n H. apply attrs_iff in H; auto.
-    destruct H as [_ [w [_ [_ [Hn _]]]]]. unfold SearchSpec.attrs_of in Hn.
-    destruct it as [[| | | | |]|]; try destruct Hn. apply Hit. reflexivity.
+    destruct H as [_ [w [_ [_ [Hn _]]]]]. rewrite (attrs_of_unsearched w Hit) in Hn. destruct Hn.
   Qed.
 End Proofs.
 
@@ -1226,12 +1337,23 @@ Proof.
       congruence.
 Qed.
 
-Lemma prepare_none : forall brepr c item cs, prepare brepr c item = PItem cs (EAtom ANone) -> item = ANone.
+(* the normalised item searches str objects as custom objects only for the item None or a container *)
+Lemma prepare_unsearched : forall brepr c a cs it, a <> ANone ->
+  prepare brepr c (VAtom a) = PItem cs it -> obj_searched it = false.
 Proof.
-  intros brepr c item cs H. unfold prepare in H.
-  destruct (use_regexp c).
-  - destruct item; cbn in H; repeat (match type of H with context [if ?b then _ else _] => destruct b end; cbn in H); try discriminate.
-  - destruct item; cbn in H; repeat (match type of H with context [if ?b then _ else _] => destruct b end; cbn in H); try discriminate; auto.
+  intros brepr c a cs it Ha H. cbn [prepare] in H. unfold prepare_atom in H.
+  destruct a; try (exfalso; apply Ha; reflexivity); cbn in H;
+    repeat (match type of H with context [if ?b then _ else _] => destruct b end; cbn in H);
+    try discriminate; inversion H; subst; reflexivity.
+Qed.
+
+Lemma prepare_atom_item : forall brepr c a cs it,
+  prepare brepr c (VAtom a) = PItem cs it -> atom_item it = true.
+Proof.
+  intros brepr c a cs it H. cbn [prepare] in H. unfold prepare_atom in H.
+  destruct a; cbn in H;
+    repeat (match type of H with context [if ?b then _ else _] => destruct b end; cbn in H);
+    try discriminate; inversion H; subst; reflexivity.
 Qed.
 
 (* ---------- refutations of the full-strength exclusion clauses (witnesses) ---------- *)
@@ -1245,7 +1367,7 @@ Definition no_re : pystr -> bool := fun _ => false.
    reports root['a'], a float *)
 Definition k16_cfg := mkConfig false false false false [] [TFloat].
 Definition k16_obj := VDict [(AStr (s2p "a"), VAtom (AHalf 3)); (AStr (s2p "b"), VAtom (AStr (s2p "x1.5")))].
-Definition k16_item := AStr (s2p "1.5").
+Definition k16_item := VAtom (AStr (s2p "1.5")).
 
 Theorem exclusions_types_refuted :
   exists evs q v,
@@ -1261,7 +1383,7 @@ Qed.
    nothing although root[0] matches and is not of an excluded type *)
 Definition k16c_cfg := mkConfig false false false false [] [TStr].
 Definition k16c_obj := VList [VAtom (AInt 1)].
-Definition k16c_item := AStr (s2p "1").
+Definition k16c_item := VAtom (AStr (s2p "1")).
 
 Theorem complete_refuted :
   exists cs it evs q v,
@@ -1279,7 +1401,7 @@ Qed.
 (* K16b: DeepSearch({'a': 1}, 'a', exclude_paths=["root['a']"]) reports root['a'] under matched_paths *)
 Definition k16b_cfg := mkConfig false false false true [s2p "root['a']"] [].
 Definition k16b_obj := VDict [(AStr (s2p "a"), VAtom (AInt 1))].
-Definition k16b_item := AStr (s2p "a").
+Definition k16b_item := VAtom (AStr (s2p "a")).
 
 Theorem exclusions_paths_refuted :
   exists evs q v,
@@ -1299,7 +1421,7 @@ Definition k16f_attrs := [s2p "capitalize"].
 Theorem paths_only_locations_refuted :
   exists evs q n,
     wf k16f_obj = true /\
-    deep_search id_repr no_re no_re [] k16f_attrs [] k16f_cfg ANone k16f_obj = ROk evs /\
+    deep_search id_repr no_re no_re [] k16f_attrs [] k16f_cfg (VAtom ANone) k16f_obj = ROk evs /\
     In (EvAttr q n) evs.
 Proof.
   eexists. exists [SKey ANone], (s2p "capitalize").
@@ -1308,11 +1430,35 @@ Qed.
 
 (* K16d: DeepSearch([b'abc'], 'a') raises TypeError *)
 Definition k16d_obj := VList [VAtom (ABytes (s2p "abc"))].
-Definition k16d_item := AStr (s2p "a").
+Definition k16d_item := VAtom (AStr (s2p "a")).
 Theorem no_raise_refuted :
   wf k16d_obj = true /\
   deep_search id_repr no_re no_re [] [] [] k16f_cfg k16d_item k16d_obj = RRaise.
 Proof. split; [reflexivity|vm_compute; reflexivity]. Qed.
+
+(* K16h: a container item is found only as an ITEM of a list / tuple / set:
+   DeepSearch({'a': [1, 2]}, [1, 2]) == {}  although root['a'] == [1, 2];
+   DeepSearch([[1, 2]], [1, 2]) reports root[0] *)
+Definition k16h_item := VList [VAtom (AInt 1); VAtom (AInt 2)].
+Definition k16h_obj := VDict [(AStr (s2p "a"), k16h_item)].
+Definition k16h_text := s2p "[1, 2]".      (* str(item) *)
+Definition k16h_obj2 := VList [VList [VAtom (AHalf 2); VAtom (AInt 2)]].
+Theorem complete_container_refuted :
+  exists cs it evs q v,
+    wf k16h_obj = true /\
+    prepare id_repr k16f_cfg k16h_item = PItem cs it /\ item_excl k16f_cfg it = false /\
+    deep_search id_repr no_re no_re k16h_text [] [] k16f_cfg k16h_item k16h_obj = ROk evs /\
+    In (q, v) (matches_spec_doc id_repr no_re no_re k16f_cfg cs it k16h_obj) /\
+    ~ In (EvValue q v) evs.
+Proof.
+  exists true, (EVal k16h_item). eexists. exists [SKey (AStr (s2p "a"))], k16h_item.
+  split; [reflexivity|]. split; [reflexivity|]. split; [reflexivity|]. split; [vm_compute; reflexivity|].
+  split; [vm_compute; auto|]. intros [].
+Qed.
+Example container_item_found_in_list :
+  deep_search id_repr no_re no_re k16h_text [] [] k16f_cfg k16h_item k16h_obj2
+  = ROk [EvValue [SIdx 0] (VList [VAtom (AHalf 2); VAtom (AInt 2)])].
+Proof. vm_compute. reflexivity. Qed.
 
 (* the guards are satisfiable by non-trivial inputs: an object with dictionaries, lists and
    excluded-type values placed in lists, an excluded list position *)
@@ -1321,6 +1467,7 @@ Definition guard_obj :=
   VDict [(AStr (s2p "k"), VList [VAtom (AHalf 3); VAtom (AStr (s2p "x1.5")); VAtom (AHalf 3)]);
          (AStr (s2p "1.5"), VAtom (AStr (s2p "1.5")))].
 Definition guard_item := AStr (s2p "1.5").
+Definition guard_item_v := VAtom guard_item.
 Definition guard_evs :=
   [EvValue [SKey (AStr (s2p "k")); SIdx 1] (VAtom (AStr (s2p "x1.5")));
    EvPath [SKey (AStr (s2p "1.5"))] (VAtom (AStr (s2p "1.5")));
@@ -1329,7 +1476,7 @@ Example guards_satisfiable :
   wf guard_obj = true /\ k16_guard guard_cfg guard_obj = true /\
   k16b_guard id_repr no_re guard_cfg guard_obj = true /\
   item_excl guard_cfg (EAtom guard_item) = false /\
-  deep_search id_repr no_re no_re [] [] [] guard_cfg guard_item guard_obj = ROk guard_evs.
+  deep_search id_repr no_re no_re [] [] [] guard_cfg guard_item_v guard_obj = ROk guard_evs.
 Proof. repeat split; vm_compute; reflexivity. Qed.
 
 (* ---------- no TypeError without bytes (finding K16d confined) ---------- *)
@@ -1354,18 +1501,23 @@ Proof.
   - destruct (child obj s) as [ch|] eqn:Hc; [|discriminate]. apply (IH ch w); [eapply child_bytes_free; eauto|exact Hg].
 Qed.
 
-Lemma prepare_not_bytes : forall brepr c item cs it, atom_not_bytes item = true ->
+Definition item_not_bytes (item : value) : bool :=
+  match item with VAtom a => atom_not_bytes a | _ => true end.
+
+Lemma prepare_not_bytes : forall brepr c item cs it, item_not_bytes item = true ->
   prepare brepr c item = PItem cs it ->
   it <> ERe true /\ forall s, it <> EAtom (ABytes s).
 Proof.
-  intros brepr c item cs it Hb H. unfold prepare in H.
-  destruct item; try discriminate Hb; cbn in H;
+  intros brepr c item cs it Hb H. destruct item as [a| | | | |]; cbn [prepare] in H;
+    try (destruct (use_regexp c); [discriminate|]; inversion H; subst; split; intros; discriminate).
+  unfold prepare_atom in H. cbn in Hb.
+  destruct a; try discriminate Hb; cbn in H;
     repeat (match type of H with context [if ?b then _ else _] => destruct b end; cbn in H);
     try discriminate; inversion H; subst; split; intros; discriminate.
 Qed.
 
 Theorem no_raise_partial : forall brepr re_search excl_re re_text sa ba c item obj,
-  wf obj = true -> bytes_free obj = true -> atom_not_bytes item = true ->
+  wf obj = true -> bytes_free obj = true -> item_not_bytes item = true ->
   deep_search brepr re_search excl_re re_text sa ba c item obj = RRaise ->
   prepare brepr c item = PRaise.
 Proof.
@@ -1376,14 +1528,14 @@ Proof.
   - pose proof (get_at_bytes_free _ _ _ Hbf Hg) as Hw.
     destruct w as [a| | | | |]; try discriminate. cbn in Hr, Hw.
     destruct a as [| | | |s|s]; try discriminate; cbn in Hr.
-    + unfold num_raises in Hr. destruct it as [|[|]]; try discriminate. apply Hre. reflexivity.
-    + unfold num_raises in Hr. destruct it as [|[|]]; try discriminate. apply Hre. reflexivity.
-    + unfold num_raises in Hr. destruct it as [|[|]]; try discriminate. apply Hre. reflexivity.
-    + unfold str_raises in Hr. destruct it as [[| | | |i|i]|[|]]; try discriminate.
+    + unfold num_raises in Hr. destruct it as [|[|]|]; try discriminate. apply Hre. reflexivity.
+    + unfold num_raises in Hr. destruct it as [|[|]|]; try discriminate. apply Hre. reflexivity.
+    + unfold num_raises in Hr. destruct it as [|[|]|]; try discriminate. apply Hre. reflexivity.
+    + unfold str_raises in Hr. destruct it as [[| | | |i|i]|[|]|]; try discriminate.
       * apply (Hby i). reflexivity.
       * apply Hre. reflexivity.
   - unfold text_raises in Hr. apply andb_true_iff in Hr. destruct Hr as [_ Hr].
-    destruct it as [|[|]]; try discriminate. apply Hre. reflexivity.
+    destruct it as [|[|]|]; try discriminate. apply Hre. reflexivity.
 Qed.
 
 (* ---------- the result dictionaries (keyed by path text) ---------- *)
@@ -1467,7 +1619,7 @@ Section Final.
   Variable re_text : pystr.
   Variable sa ba : list pystr.
   Variable c : config.
-  Variable item : atom.
+  Variable item : value.
   Variable obj : value.
   Variable cs : bool.
   Variable it : eitem.
@@ -1483,36 +1635,42 @@ Section Final.
   Qed.
 
   Lemma final_sound : forall q v, In (EvValue q v) evs ->
-    get_at obj q = Some v /\ leaf_match brepr re_search c cs it v = true.
+    get_at obj q = Some v /\ item_match brepr re_search c cs it v = true.
   Proof.
-    intros q v H. rewrite final_evs in H. apply values_iff in H; auto. tauto.
+    intros q v H. rewrite final_evs in H. apply values_iff in H; auto.
+    destruct H as [_ [Hg [_ Hm]]]. split; auto. unfold match_at in Hm. unfold item_match.
+    destruct (leaf_match brepr re_search c cs it v); auto. cbn [orb] in *.
+    apply andb_true_iff in Hm. tauto.
   Qed.
 
   Lemma final_values_exact : forall q v,
     In (EvValue q v) evs <-> In (q, v) (matches_spec brepr re_search excl_re c cs it obj).
   Proof. intros q v. rewrite final_evs. apply values_exact. exact Hwf. Qed.
 
-  Lemma final_complete_partial : item_excl c it = false -> forall q v,
+  Lemma final_complete_partial : item_excl c it = false -> atom_item it = true -> forall q v,
     In (q, v) (matches_spec_doc brepr re_search excl_re c cs it obj) -> In (EvValue q v) evs.
-  Proof. intros Hi q v H. rewrite final_evs. apply complete_doc; auto. Qed.
+  Proof. intros Hi Hai q v H. rewrite final_evs. apply complete_doc; auto. Qed.
 
-  Lemma final_values_exact_doc_partial : item_excl c it = false -> k16_guard c obj = true -> forall q v,
+  Lemma final_values_exact_doc_partial :
+    item_excl c it = false -> atom_item it = true -> k16_guard c obj = true -> forall q v,
     In (EvValue q v) evs <-> In (q, v) (matches_spec_doc brepr re_search excl_re c cs it obj).
-  Proof. intros Hi Hg q v. rewrite final_evs. apply values_exact_doc; auto. Qed.
+  Proof. intros Hi Hai Hg q v. rewrite final_evs. apply values_exact_doc; auto. Qed.
 
   Lemma final_paths_exact : forall q v,
     In (EvPath q v) evs <-> In (q, v) (paths_spec brepr re_search excl_re re_text c cs it obj).
   Proof. intros q v. rewrite final_evs. apply paths_exact. exact Hwf. Qed.
 
   Lemma final_paths_exact_doc_partial :
-    item_excl c it = false -> k16_guard c obj = true -> k16b_guard brepr excl_re c obj = true -> forall q v,
+    item_excl c it = false -> atom_item it = true ->
+    k16_guard c obj = true -> k16b_guard brepr excl_re c obj = true -> forall q v,
     In (EvPath q v) evs <-> In (q, v) (paths_spec_doc brepr re_search excl_re re_text c cs it obj).
-  Proof. intros Hi Hg Hgb q v. rewrite final_evs. apply paths_exact_doc; auto. Qed.
+  Proof. intros Hi Hai Hg Hgb q v. rewrite final_evs. apply paths_exact_doc; auto. Qed.
 
-  Lemma final_only_locations_partial : item <> ANone -> forall q n, ~ In (EvAttr q n) evs.
+  Lemma final_only_locations_partial : forall a, item = VAtom a -> a <> ANone ->
+    forall q n, ~ In (EvAttr q n) evs.
   Proof.
-    intros Hi q n. rewrite final_evs. apply no_attr_partial; auto.
-    intro E. subst it. apply Hi. eapply prepare_none; eauto.
+    intros a Ha Hi q n. rewrite final_evs. apply no_attr_partial; auto.
+    subst item. eapply prepare_unsearched; eauto.
   Qed.
 
   Lemma final_exclusions_partial : k16_guard c obj = true ->
